@@ -5,6 +5,8 @@
 set -u
 SEED=$(realpath "$1"); shift
 cd /verif
+export VERIF_EVIDENCE_DIR="$SEED/evidence"   # seeded runs must not replace the committed evidence
+mkdir -p "$VERIF_EVIDENCE_DIR"
 if [ -n "$(git -C /repo status --porcelain --untracked-files=no)" ]; then echo "SEEDCHECK refused: /repo is dirty"; exit 2; fi
 git -C /repo apply "$SEED/patch.diff" || { echo "SEEDCHECK $SEED patch-does-not-apply"; exit 2; }
 trap 'git -C /repo checkout -- .' EXIT
